@@ -165,6 +165,7 @@ def run(pid, tier, seed):
         if k != "stopped":
             raise vlib.Inconclusive("harness failed:\n" + out[-3000:])
         rep.notes.append("driver stopped after recording a surviving socket/goroutine")
+        rep.stopped = "driver stopped deliberately"
     if os.path.exists(stats):
         st = json.load(open(stats))
         rep.extra["schedules"] = {k: {"dfs": v[0], "random": v[1], "exhaustive": bool(v[2])} for k, v in st.items() if not k.startswith("seq")}
@@ -189,6 +190,7 @@ def run(pid, tier, seed):
         if k != "stopped":
             raise vlib.Inconclusive("real-socket harness failed:\n" + out[-3000:])
         rep.notes.append("real-socket driver stopped after recording a Close call that does not return")
+        rep.stopped = "real-socket driver stopped deliberately"
     real = vlib.read_ndjson(tp2)
     rep.extra["real_socket_histories"] = sum(1 for e in real if e["ev"] == "reset")
     lines += real
